@@ -16,16 +16,19 @@ Trace == ndJsonDeserialize(IOEnv.TRACE_FILE)
 Ev == Trace[l]
 tvars == <<vars, l>>
 
-ToSet(s) == {s[k] : k \in 1..Len(s)}
+SeqSet(s) == {s[k] : k \in 1..Len(s)}
 Ranks(s) == [k \in 1..Len(s) |-> s[k][1]]
 
-TInit == Init /\ l = 1 /\ W = Stores /\ Rd = Stores /\ MinW = 1 /\ has = [i \in Stores |-> {}]
+TInit == /\ l = 1 /\ W = Stores /\ Rd = Stores /\ MinW = 1 /\ has = [i \in Stores |-> {}]
+         /\ call = NoCall /\ outcome = [i \in Stores |-> "ok"] /\ done = {} /\ nSuccess = 0 /\ ret = "none"
+         /\ acked = {} /\ removedOk = {} /\ copiesAtAck = 0 /\ pendingBg = {}
+         /\ reply = [op |-> "init", res |-> "ok", list |-> <<>>]
 
 IsEv(e) == l <= Len(Trace) /\ Ev.ev = e /\ l' = l + 1
 
 TCfg == /\ IsEv("cfg")
-        /\ W' = ToSet(Ev.w) /\ Rd' = ToSet(Ev.rd) /\ MinW' = Ev.min
-        /\ has' = [i \in Stores |-> IF i <= Len(Ev.pre) THEN ToSet(Ev.pre[i]) ELSE {}]
+        /\ W' = SeqSet(Ev.w) /\ Rd' = SeqSet(Ev.rd) /\ MinW' = Ev.min
+        /\ has' = [i \in Stores |-> IF i <= Len(Ev.pre) THEN SeqSet(Ev.pre[i]) ELSE {}]
         /\ call' = NoCall /\ outcome' = [i \in Stores |-> "ok"] /\ done' = {} /\ nSuccess' = 0 /\ ret' = "none"
         /\ acked' = {} /\ removedOk' = {} /\ copiesAtAck' = 0 /\ pendingBg' = {}
         /\ reply' = [op |-> "init", res |-> "ok", list |-> <<>>]
@@ -45,7 +48,7 @@ TRmRet == IsEv("rmret") /\ RemoveRet /\ reply'.res = Ev.res
 
 TOp == /\ IsEv("op")
        /\ CASE Ev.op = "fetch" -> Fetch(Ev.b)
-            [] Ev.op = "stat"  -> Stat(ToSet(Ev.bs))
+            [] Ev.op = "stat"  -> Stat(SeqSet(Ev.bs))
             [] Ev.op = "enum"  -> Enumerate(Ev.after, Ev.limit)
        /\ reply'.res = Ev.res
        /\ (Ev.op \in {"stat", "enum"} => reply'.list = Ranks(Ev.list))
